@@ -45,6 +45,9 @@ type Exec struct {
 
 	assumptions  []Assump
 	obligations  []*Obligation
+	auditNotes   []string
+	autoUnroll   map[ast.Stmt]*LoopContract
+	anteCovers   []*Obligation // vacuity audit: reachability of the antecedents of A ==> B clauses
 	fresh        int
 	genCounter   int
 	initSyms     map[string]*Term
@@ -1796,6 +1799,17 @@ func (x *Exec) loopContract(s ast.Stmt) (*LoopContract, int) {
 			}
 		}
 	}
+	if x.uc.UnrollLoops > 0 {
+		if x.autoUnroll == nil {
+			x.autoUnroll = map[ast.Stmt]*LoopContract{}
+		}
+		lc := x.autoUnroll[s]
+		if lc == nil {
+			lc = &LoopContract{Ordinal: ord, Unroll: x.uc.UnrollLoops}
+			x.autoUnroll[s] = lc
+		}
+		return lc, ord
+	}
 	return nil, ord
 }
 
@@ -2010,6 +2024,10 @@ func (x *Exec) execLoop(lp *loopParts, st *State) Outcomes {
 				continue
 			}
 			x.assert(st, evalInv(inv, st), "inv-init", fmt.Sprintf("%s/inv-init:%s", loopName, inv.Name), inv.Tags, lp.stmt.Pos(), inv.Text)
+			{
+				inv, at := inv, st.clone()
+				x.coverAnteWith(loopName, inv, at, "init", func(tmp *Clause) *Term { return evalInv(tmp, at) })
+			}
 		}
 	}
 	x.havocSet(st, mod)
@@ -2038,6 +2056,7 @@ func (x *Exec) execLoop(lp *loopParts, st *State) Outcomes {
 				continue
 			}
 			x.assert(back, evalInv(inv, back), "inv-step", fmt.Sprintf("%s/inv-step:%s", loopName, inv.Name), inv.Tags, lp.stmt.Pos(), inv.Text)
+			x.coverAnteWith(loopName, inv, back, "step", func(tmp *Clause) *Term { return evalInv(tmp, back) })
 		}
 		if d0 != nil {
 			s2 := *sp
